@@ -96,10 +96,13 @@ def run(res, args):
         items.append((s, "pipeline %s %s %d 400" % (";".join(steps), rng.choice(["0", "1,0s", "8,nil,0"]), rng.choice([1, 4]))))
     # a tolerance, a consumer that stays away for 2.5 s (longer than the tolerance) and an interruption right after the
     # burst the reader is blocked on: time spent waiting for a consumer is not silence of the source
-    for k in range(2 if res.tier == "quick" else 8):
-        fr = [gen.rand_frame(rng, small=True) for _ in range(4)]
+    for k in range(3 if res.tier == "quick" else 12):
+        fr = [gen.rand_frame(rng, small=True) for _ in range(5)]
         s = b"".join(fr)
-        cut = len(fr[0]) + len(fr[1])
+        # the burst ends one or two bytes into the fourth frame
+        # (message 1 is delivered and the consumer goes away; message 2 waits in the fan-out, message 3 in the framer;
+        # the byte after the third frame is the one the reader cannot hand over)
+        cut = len(fr[0]) + len(fr[1]) + len(fr[2]) + [1, 1, 2][k % 3]
         res.count("EOF tolerance 400 ms, a consumer away for 2.5 s, interruption at the end of the burst it blocks")
         items.append((s, "pipeline d:%s;%s;d:%s %s %d 400" % (s[:cut].hex(), ["eof", "timeout;eof"][k % 2], s[cut:].hex(), ["0S", "0S,1"][k % 2], rng.choice([1, 4]))))
     # a consumer that stays away from its channel for 2.5 s (a writer stuck in a slow Write): the fan-out must wait
